@@ -301,7 +301,7 @@ class ExceptionTrace(object):
         return fmt.format(message)
 
     def _format_name(self, name, fmt):  # type: (str, str) -> str
-        if "<" in name:
+        if "<" in name or name.endswith("\\"):
             # A file or function name is not markup: it is shown as it is,
             # unstyled (see _format_message)
             return name.replace("<", "\\<")
